@@ -77,6 +77,15 @@ async fn verif_enum_header_ex_server() {
         let res = serve_one(&store, HeaderRequest::with_hash(celestia_types::hash::Hash::Sha256([7u8; 32]))).await.unwrap_or_default();
         if res.len() != 1 || res[0].status_code != i32::from(StatusCode::NotFound) { println!("WITNESS C29: hash request for an unknown hash not answered with a single not-found"); panic!("witness"); }
     }
+    // the 512 cap needs a long store
+    {
+        let (store, _) = gen_filled_store(520).await;
+        for (origin, amount, want) in [(1u64, 600u64, 512usize), (1, 512, 512), (1, 513, 512), (9, 520, 512), (10, 600, 511)] {
+            cases += 1;
+            let res = serve_one(&store, HeaderRequest::with_origin(origin, amount)).await.unwrap_or_default();
+            if res.len() != want { println!("WITNESS C29: request origin {origin} amount {amount} on a store holding 1..=520 answered with {} responses, expected {want} (cap min(amount, 512))", res.len()); panic!("witness"); }
+        }
+    }
     // empty store: head is not-found
     cases += 1;
     let empty = InMemoryStore::new();
